@@ -256,7 +256,7 @@ def key_exprs(draw, cols, t=None):
         return ['col', draw(st.sampled_from(mine))], t
     e = draw(exprs(t, [c for c in cols if c[0] != 'rid'], draw(st.integers(0, 2))))
     if not any(n[0] == 'col' for n in bql.walk(e)):
-        # constant keys fold to equal constants and collide with each other (C05 known finding)
+        # constant keys make one group only: prefer a key that varies
         if ('rid', 'int') in [tuple(c) for c in cols]:
             return ['mod', ['col', 'rid'], bql.const(draw(st.integers(2, 3)))], 'int'
         keyed = [(n, ty) for n, ty in cols if ty in KEYTYPES]
@@ -384,12 +384,7 @@ def agg_selects(draw, table, order=None, distinct=None, limit=None, having=None)
     """Aggregate SELECT over table (IR): keys visible/hidden, given by expression/name/position/implicitly."""
     cols = table['cols']
     nkeys = draw(st.sampled_from([1, 1, 2, 2, 0, 3]))
-    keys = []
-    for _ in range(nkeys):
-        k = draw(key_exprs(cols))
-        if k[0] not in [x[0] for x in keys]:      # the same key twice: see C05 known finding
-            keys.append(k)
-    nkeys = len(keys)
+    keys = [draw(key_exprs(cols)) for _ in range(nkeys)]     # the same key may occur twice
     naggs = draw(st.integers(1, 3)) if nkeys else draw(st.integers(1, 3))
     aggs = [draw(agg_exprs(cols)) for _ in range(naggs)]
     hidden = [draw(st.integers(0, 4)) == 0 for _ in keys]
